@@ -142,7 +142,7 @@ impl Scenario for C07 {
             components_stubbed: &["TCP (SimNet)", "EPMD (stub)", "remote node (handshake acceptor + independent frame, header and term reader)"],
             assumptions: &["payloads come from the sub-space with an unambiguous denotation (DESIGN 2.4); node-local identifier forms are not generated"],
             fault_prefixes: &["fault.", "net."],
-            expected_probes: &["probe.c07.frame_checked_passthrough", "probe.c07.frame_checked_header", "probe.c07.interleaved_tasks", "probe.c07.op_failed_after_fault", "probe.c07.unlink_id_above_2_63", "probe.c07.asymmetric_flag_offer", "probe.c07.node_local_identifier", "probe.c07.same_process_other_form", "probe.c07.same_pair_again", "probe.c07.both_identifiers_node_local", "probe.c07.message_of_megabytes", "probe.c07.second_connect_refused", "probe.c07.second_connection_by_the_same_task", "probe.c07.every_atom_longer_than_255_bytes", "probe.c07.payloads_equal_as_terms_differ_on_the_wire", "probe.c07.local_side_is_a_live_process", "probe.c07.unencodable_rejected_cleanly", "probe.c07.nothing_written_after_failed_handshake"],
+            expected_probes: &["probe.c07.frame_checked_passthrough", "probe.c07.frame_checked_header", "probe.c07.interleaved_tasks", "probe.c07.op_failed_after_fault", "probe.c07.unlink_id_above_2_63", "probe.c07.asymmetric_flag_offer", "probe.c07.node_local_identifier", "probe.c07.same_process_other_form", "probe.c07.same_pair_again", "probe.c07.both_identifiers_node_local", "probe.c07.message_of_megabytes", "probe.c07.second_connect_refused", "probe.c07.second_connection_by_the_same_task", "probe.c07.every_atom_longer_than_255_bytes", "probe.c07.payloads_equal_as_terms_differ_on_the_wire", "probe.c07.local_side_is_a_live_process", "probe.c07.unencodable_rejected_cleanly", "probe.c07.nothing_written_after_failed_handshake", "probe.c07.operation_after_the_peer_came_back"],
         }
     }
 }
@@ -204,7 +204,7 @@ fn unlink_id(seed: u64) -> u64 {
     }
 }
 
-async fn collector(mut conn: ServerConn, sink: Arc<Mutex<Vec<u8>>>, p: Arc<Plan>, w: Arc<World>, ctl: Arc<Mutex<Option<crate::net::PipeCtl>>>) {
+async fn collector(mut conn: ServerConn, sink: Arc<Mutex<Vec<u8>>>, p: Arc<Plan>, w: Arc<World>, ctl: Arc<Mutex<Option<crate::net::PipeCtl>>>, stop: Arc<tokio::sync::Notify>) {
     *ctl.lock().unwrap() = Some(conn.c2s.clone());
     if p.fault == "write_error" {
         conn.c2s.fail_writes_after(conn.c2s.total_written() + p.fault_at, std::io::ErrorKind::BrokenPipe);
@@ -225,7 +225,16 @@ async fn collector(mut conn: ServerConn, sink: Arc<Mutex<Vec<u8>>>, p: Arc<Plan>
             w.ev(format!("peer: close after {} bytes", total));
             break;
         }
-        match conn.read.read(&mut buf).await {
+        let r = tokio::select! {
+            biased;
+            r = conn.read.read(&mut buf) => r,
+            _ = stop.notified() => {
+                // the peer goes away in an orderly fashion (everything sent so far has been read)
+                w.ev(format!("peer: closes the stream after {} bytes", total));
+                break;
+            }
+        };
+        match r {
             Ok(0) | Err(_) => break,
             Ok(n) => {
                 total += n as u64;
@@ -252,6 +261,7 @@ async fn scenario(w: &Arc<World>, p: &Plan) {
     }
     // a second connection (made after the first one's operations) gets a collector of its own, without faults
     let sink_b: Arc<Mutex<Vec<u8>>> = Arc::new(Mutex::new(Vec::new()));
+    let stop_first = Arc::new(tokio::sync::Notify::new());
     let ctl_b: Arc<Mutex<Option<crate::net::PipeCtl>>> = Arc::new(Mutex::new(None));
     let mut p_calm = (*p).clone();
     p_calm.fault = String::new();
@@ -259,15 +269,16 @@ async fn scenario(w: &Arc<World>, p: &Plan) {
     {
         let (sink2, p2, ctl2) = (sink.clone(), p.clone(), ctl.clone());
         let (sink_b2, p_b, ctl_b2) = (sink_b.clone(), p_calm.clone(), ctl_b.clone());
+        let stop2 = stop_first.clone();
         install_conforming_peer(
             w,
             NetCfg { client: p.client.clone(), server: p.server.clone(), cap: p.cap as usize },
             peer_flags,
             move |w, conn, _seen| {
                 if conn.conn_index > 0 {
-                    Box::pin(collector(conn, sink_b2.clone(), p_b.clone(), w, ctl_b2.clone()))
+                    Box::pin(collector(conn, sink_b2.clone(), p_b.clone(), w, ctl_b2.clone(), Arc::new(tokio::sync::Notify::new())))
                 } else {
-                    Box::pin(collector(conn, sink2.clone(), p2.clone(), w, ctl2.clone()))
+                    Box::pin(collector(conn, sink2.clone(), p2.clone(), w, ctl2.clone(), stop2.clone()))
                 }
             },
         );
@@ -378,6 +389,33 @@ async fn scenario(w: &Arc<World>, p: &Plan) {
         for h in handles {
             if h.await.is_err() {
                 w.violation("panic", "a sender task panicked".to_string());
+            }
+        }
+        if p.fault.is_empty() && p.salt & 0x30 == 0x30 {
+            // the peer goes away, the node notices, the application connects again: an operation issued
+            // then is read by the peer on the new stream
+            drain(&ctl).await;
+            stop_first.notify_one();
+            let mut gone = false;
+            for _ in 0..15_000 {
+                if !node.connections().contains_key(PEER_NAME) {
+                    gone = true;
+                    break;
+                }
+                tokio::time::sleep(Duration::from_millis(1)).await;
+            }
+            if gone && node.connect(PEER_NAME).await.is_ok() {
+                let op = Op { kind: "send".into(), seed: p.salt ^ 0xc, size: 4, pause_ms: 0 };
+                let to = peer_pid_for(0, 0, p.tasks[0].first().map(|o| o.seed).unwrap_or(op.seed));
+                let pl = tagged_payload(9, 0, &op);
+                let res = node.send(&to_pid(&to).unwrap(), from_val(&pl)).await;
+                let want = Want { task: 9, idx: 0, kind: "send".into(), control: vec![Some(Val::int(2)), Some(Val::atom("")), Some(to)], payload: Some(pl), ok: res.is_ok(), err: res.err().map(|e| e.to_string()).unwrap_or_default(), expect_err: false };
+                drain(&ctl_b).await;
+                tokio::time::sleep(Duration::from_millis(200)).await;
+                w.stat("probe.c07.operation_after_the_peer_came_back");
+                evaluate(w, &p_calm, &sink_b.lock().unwrap(), &[want]);
+            } else {
+                w.stat("c07.peer_did_not_come_back");
             }
         }
     } else {
